@@ -666,7 +666,15 @@ def state_key(sub: Subject, m: Any) -> tuple:
         else:
             tables.append(tuple(getattr(w, '_raw_indexes', ())))
     keys = tuple(getattr(x, 'key', None) for x in raw_now) if any(v.mapping for v in sub.views) else ()
-    return (pattern, tuple(tables), keys)
+    # hidden wiring: is the index table a view reads from still the list object its update handler maintains?
+    wired = []
+    raw_w = m.__dict__.get(sub.raw)
+    handlers = list(getattr(raw_w, '_update_handlers', ())) if raw_w is not None else []
+    for v in sub.views:
+        w = m.__dict__.get(v.attr)
+        table = getattr(w, '_raw_indexes', None) if w is not None else None
+        wired.append(None if table is None else any(getattr(h, '_raw_indexes', None) is table for h in handlers))
+    return (pattern, tuple(tables), keys, tuple(wired))
 
 
 def run_case(case: dict) -> core.CaseResult:
